@@ -42,39 +42,33 @@ def split_cases(lines):
     return cases
 
 
-def run_harness(exe, cases, work, tag, timeout=900):
-    """Runs all cases; a crash / hang is attributed to the command being executed; that case is dropped from the
-    judged trace and reported.  Returns (trace_text, crashes) with crashes = [(case_lines, cmd_line, prev_cmds, how)]."""
+def run_harness(exe, cases, work, tag, timeout=2400):
+    """The harness runs every case in its own process and prints `crashed signal N` for a case that died.
+    Crashed cases are dropped from the judged trace and reported.
+    Returns (trace_text, crashes) with crashes = [(case_lines, cmd_line, prev_cmds, how)]."""
     os.makedirs(work, exist_ok=True)
-    trace, crashes = [], []
-    todo = list(cases)
-    rnd = 0
-    while todo:
-        rnd += 1
-        cf = os.path.join(work, "%s.%d.case" % (tag, rnd))
-        with open(cf, "w") as f:
-            for c in todo: f.write("\n".join(c) + "\n")
-        try:
-            p = subprocess.run([exe, cf], stdout=subprocess.PIPE, stderr=subprocess.PIPE, text=True, timeout=timeout)
-            rc, out, err = p.returncode, p.stdout, p.stderr
-        except subprocess.TimeoutExpired as e:
-            out = e.stdout.decode() if isinstance(e.stdout, bytes) else (e.stdout or "")
-            rc, err = 124, "timeout"
-        if rc == 3:
-            raise RuntimeError("harness rejected a case line (generator/harness bug): %s" % out[-600:])
-        olines = out.split("\n")
-        if rc == 0:
-            trace += olines
-            break
-        # position of the last (incomplete) case
-        idx = [i for i, l in enumerate(olines) if l.startswith("case ")]
-        k = len(idx) - 1
-        trace += olines[:idx[k]] if idx else []
-        bad = todo[k]
-        cmds = [l[4:] for l in olines[idx[k]:] if l.startswith("cmd ")]
-        how = "timeout" if rc == 124 else "crash rc=%d %s" % (rc, (err or "").strip()[-160:])
-        crashes.append((bad, cmds[-1] if cmds else "(none)", cmds[:-1], how))
-        todo = todo[k + 1:]
+    cf = os.path.join(work, "%s.case" % tag)
+    with open(cf, "w") as f:
+        for c in cases: f.write("\n".join(c) + "\n")
+    p = subprocess.run([exe, cf], stdout=subprocess.PIPE, stderr=subprocess.PIPE, text=True, timeout=timeout)
+    if p.returncode != 0:
+        raise RuntimeError("harness failed (rc=%s; generator/harness bug): %s" % (p.returncode, p.stdout[-600:]))
+    byid = {c[0].split(" ")[1]: c for c in cases}
+    trace, crashes, cur = [], [], []
+    for l in p.stdout.split("\n"):
+        if l.startswith("case "):
+            cur = [l]
+        elif l.startswith("crashed "):
+            cmds = [x[4:] for x in cur if x.startswith("cmd ")]
+            sig = l.split(" ")[-1]
+            how = "timeout" if sig == "14" else "crash signal " + sig
+            crashes.append((byid[cur[0].split(" ")[1]], cmds[-1] if cmds else "(none)", cmds[:-1], how))
+            cur = None
+        elif l == "end":
+            if cur is not None: trace += cur + [l]
+            cur = []
+        elif cur is not None:
+            cur.append(l)
     return "\n".join(trace) + "\n", crashes
 
 
@@ -136,9 +130,19 @@ def classify(dom, kind, opline, detail=""):
             site = "Sparse_Row::linear_combine(y,1,c2):this==&y,coefficient-cancels"
         elif op == "linear_combine_c" and t[4] != "1":
             site = "Linear_Expression::linear_combine(y,c1,c2):this==&y,c1!=1"
-    if dom == "Grid" and kind == "crash" and op in ("limited_congruence_extrapolation_assign_of", "limited_extrapolation_assign_of",
-                                                     "limited_generator_extrapolation_assign_of") and info["aliasing"] in ("x=z", "x=y=z"):
-        site = "Grid::limited_*_extrapolation_assign(y,cgs):cgs-is-x.congruences()"
+    al = info["aliasing"]
+    if op.endswith("_extrapolation_assign_of") and al in ("x=z", "y=z", "x=y=z"):
+        if dom in ("C", "NNC"): site = "Polyhedron::limited_*_extrapolation_assign(y,cs):cs-is-con_sys-of-x-or-y"
+        if dom == "Grid": site = "Grid::limited_*_extrapolation_assign(y,cgs):cgs-is-con_sys-of-x-or-y"
+    if dom in ("C", "NNC") and op == "add_generator_first_of" and al == "x=y" and kind in ("crash", "pair", "pair-OK"):
+        site = "Polyhedron::add_generator(g):g-refers-into-own-gen_sys"
+    if dom == "PS" and al == "x=y":
+        if op == "strictly_contains" and kind == "pairres" and re.search(r"twinflags=\S*e", detail):
+            site = "Pointset_Powerset::strictly_contains(y):y-not-omega-reduced,empty-disjunct"
+        if op in ("BGP99_extrapolation_assign", "BHZ03_widening_assign") and kind == "pair":
+            site = "Pointset_Powerset::extrapolation(y):this==&y,y-read-after-x-collapsed"
+        if op == "simplify_using_context_assign" and kind == "pair":
+            site = "Pointset_Powerset::simplify_using_context_assign(y):this==&y"
     if site: info["site"] = site
     return info
 
